@@ -122,7 +122,9 @@ def check(scn, tr, out):
                 return
             prev_e[sid], prev_c[sid] = p["energy"][sid], p["charge"][sid]
     # ---- end of run: the stored matrix ------------------------------------------
-    cr = sim.charging_rates
+    # the recorded matrix as it stands when the run has ended; every expectation below is computed from this copy, and the
+    # analysis functions are asked twice: reading a finished simulation must not alter what it recorded
+    cr = np.array(sim.charging_rates, dtype=float, copy=True)
     T = sim.iteration
     occ = {(s["st"], t): s["sid"] for s in ss.values() for t in range(s["a"], s["d"])}
     for i, st in enumerate(ids):
@@ -166,6 +168,9 @@ def check(scn, tr, out):
     integ = sum(exp_ap) * dt
     if not close(tot, integ, 1e-3):
         out("final:total-vs-integral", "total_energy_delivered=%.12g, integral of aggregate power=%.12g" % (tot, integ), tot, integ)
+    ap2 = acnsim.aggregate_power(sim)
+    if any(not close(x, y, 1e-3) for x, y in zip(ap2, exp_ap)) or not np.array_equal(np.asarray(sim.charging_rates, dtype=float), cr):
+        out("analysis:second-reading-differs", "aggregate_power asked a second time differs, or the analysis functions altered the recorded rates", list(map(float, ap2)), exp_ap)
     if T != len(tr.periods):
         out("final:periods", "iteration %d vs %d simulated periods" % (T, len(tr.periods)), T, len(tr.periods))
 
@@ -226,7 +231,7 @@ def check_stoch(item, sim, net, evs, log, err, out):
     if err is not None:
         out("stoch:exception:%s" % type(err).__name__, "run() raised %r" % (err,), repr(err), None)
         return
-    cr = sim.charging_rates
+    cr = np.array(sim.charging_rates, dtype=float, copy=True)
     ids = net.station_ids
     dt = sim.period / 60.0
     V = 208.0
@@ -252,6 +257,13 @@ def check_stoch(item, sim, net, evs, log, err, out):
                 return
             prev[sid], prevc[sid] = p["energy"][sid], p["charge"][sid]
     integ = float(sum(cr[i, t] * V / 1000.0 * dt for i in range(len(ids)) for t in range(cr.shape[1])))
+    exp_ap = [float(sum(cr[i, t] for i in range(len(ids))) * V / 1000.0) for t in range(cr.shape[1])]
+    for nth in ("first", "second"):
+        # (a site with ONE station included) the aggregate power of the finished run, read twice
+        ap = acnsim.aggregate_power(sim)
+        if len(ap) != len(exp_ap) or any(not close(x, y, 1e-3) for x, y in zip(ap, exp_ap)) or not np.array_equal(np.asarray(sim.charging_rates, dtype=float), cr):
+            out("stoch:aggregate-power:%s-reading" % nth, "aggregate_power (%s reading) differs from sum(V*I) of the recorded rates, or reading it altered the recorded rates" % nth, list(map(float, ap)), exp_ap)
+            break
     tot = acnsim.total_energy_delivered(sim)
     if not close(tot, integ, 1e-3):
         out("stoch:total-vs-integral", "total_energy_delivered=%.12g, integral of recorded aggregate power=%.12g" % (tot, integ), tot, integ)
